@@ -147,6 +147,20 @@ struct World
     return nullptr;
   }
 
+  // a re-entrant action: the `at`-th callback invoked by the current call does something to the
+  // signals itself (the history has an event in the middle of a call)
+  struct Reentry
+  {
+    bool armed = false;
+    unsigned at = 0, kind = 0;
+    std::uint64_t target = 0;
+    int sig = -1;                  // the signal being called
+    std::vector<long> destroyed;   // connections of that signal destroyed from inside the call
+    std::vector<long> added;       // connections added to that signal from inside the call
+  } reentry;
+  void reenter(long cid, unsigned arg);
+  long do_connect(int s, bool last_destroys, std::string const &n);
+
   // callbacks (run inside the code under test)
   result_t on_call(long cid, unsigned arg)
   {
@@ -156,6 +170,11 @@ struct World
     sim::fault::Harness h;
     invoked.push_back(cid);
     args_seen.push_back(arg);
+    if (reentry.armed && invoked.size() == reentry.at + 1U)
+    {
+      reentry.armed = false;
+      reenter(cid, arg);
+    }
     if (strike)
       throw sim::Fault{"simulated exception from a signal callback"};
     return cb_value(cid, arg);
@@ -473,6 +492,174 @@ void World::destroy_conn(unsigned ci, std::string const &n)
       m.erase(it);
   }
   conns[ci].reset();
+}
+
+// returns the id of the new connection, 0 if there is no free slot or the connect failed
+long World::do_connect(int s, bool last_destroys, std::string const &n)
+{
+  for (unsigned c = 0; c < CONNS; ++c)
+    if (!conns[c])
+    {
+      long const cid = counter++;
+      conns[c].emplace();
+      conns[c]->cid = cid;
+      conns[c]->with_unreg = sigs[s]->kind() >= 2;
+      conns[c]->destroy_signal_when_empty = last_destroys && conns[c]->with_unreg;
+      conns[c]->sig = s;
+      bool const ok = guarded(n, [&] { conns[c]->handle.emplace(sigs[s]->connect(*this, cid, conns[c]->with_unreg)); });
+      if (ok)
+        msig[s].push_back(cid);
+      else
+      {
+        // failed connect: the signal is unchanged and no unregister callback may ever run
+        pending_cls.clear(); // (the precise check follows)
+        SIM_CHECK(conns[c]->unreg_runs == 0, "unregister-of-failed-connect", "connect() failed with an injected allocation failure, yet the unregister callback of the connection that never existed ran");
+        conns[c].reset();
+        ctx.probe("connect_failed");
+      }
+      ctx.ev("connect " + std::to_string(cid) + " to signal " + std::to_string(s) + (ok ? "" : " threw"));
+      return ok ? cid : 0;
+    }
+  return 0;
+}
+
+// Runs inside a callback of signal reentry.sig (connection `cid`). Everything done here is an
+// ordinary operation of the history; it merely happens while a call is in progress. Never touches
+// the running callback's own connection (destroying the std::function one is executing is the
+// caller's error) and never destroys the signal being called.
+void World::reenter(long cid, unsigned arg)
+{
+  int const s = reentry.sig;
+  switch (reentry.kind % 5)
+  {
+  case 0:
+  {
+    // destroy another connection of the signal being called: target%3 prefers the successor,
+    // the predecessor, or any other one
+    std::vector<long> const &m = msig[s];
+    auto const self = std::find(m.begin(), m.end(), cid);
+    if (self == m.end() || m.size() < 2)
+      return;
+    long victim = 0;
+    std::uint64_t const t = reentry.target;
+    if (t % 3 == 0 && self + 1 != m.end())
+      victim = *(self + 1);
+    else if (t % 3 == 1 && self != m.begin())
+      victim = *(self - 1);
+    else
+    {
+      std::vector<long> others;
+      for (long x : m)
+        if (x != cid)
+          others.push_back(x);
+      victim = others[(t / 3) % others.size()];
+    }
+    for (unsigned c = 0; c < CONNS; ++c)
+      if (conns[c] && conns[c]->cid == victim)
+      {
+        conns[c]->destroy_signal_when_empty = false;
+        reentry.destroyed.push_back(victim);
+        ctx.probe(victim == (self + 1 != m.end() ? *(self + 1) : 0) ? "reentrant_destroy_successor" : "reentrant_destroy_other");
+        destroy_conn(c, "call/reentrant-disconnect");
+        ctx.ev("  (in call) disconnect " + std::to_string(victim));
+        return;
+      }
+    return;
+  }
+  case 1:
+  {
+    // destroy a connection that belongs to another signal (or to none any more)
+    std::vector<unsigned> cand;
+    for (unsigned c = 0; c < CONNS; ++c)
+      if (conns[c] && conns[c]->sig != s)
+        cand.push_back(c);
+    if (cand.empty())
+      return;
+    unsigned const c = cand[reentry.target % cand.size()];
+    long const victim = conns[c]->cid;
+    ctx.probe("reentrant_destroy_elsewhere");
+    destroy_conn(c, "call/reentrant-disconnect");
+    ctx.ev("  (in call) disconnect " + std::to_string(victim));
+    return;
+  }
+  case 2:
+  {
+    // connect to the signal being called
+    long const added = do_connect(s, false, "call/reentrant-connect");
+    if (added != 0)
+    {
+      reentry.added.push_back(added);
+      ctx.probe("reentrant_connect_same_signal");
+    }
+    return;
+  }
+  case 3:
+  {
+    // connect to another signal
+    for (unsigned k = 0; k < SIGS; ++k)
+    {
+      unsigned const t = static_cast<unsigned>((reentry.target + k) % SIGS);
+      if (static_cast<int>(t) != s && sigs[t] && !sig_moved_from[t])
+      {
+        if (do_connect(static_cast<int>(t), false, "call/reentrant-connect") != 0)
+          ctx.probe("reentrant_connect_other_signal");
+        return;
+      }
+    }
+    return;
+  }
+  default:
+  {
+    // call another signal from inside the callback
+    for (unsigned k = 0; k < SIGS; ++k)
+    {
+      unsigned const t = static_cast<unsigned>((reentry.target + k) % SIGS);
+      if (static_cast<int>(t) == s || !sigs[t] || sig_moved_from[t])
+        continue;
+      std::vector<long> outer_invoked;
+      std::vector<unsigned> outer_args;
+      outer_invoked.swap(invoked);
+      outer_args.swap(args_seen);
+      struct Restore
+      {
+        World &w;
+        std::vector<long> &i;
+        std::vector<unsigned> &a;
+        ~Restore()
+        {
+          w.invoked.swap(i);
+          w.args_seen.swap(a);
+        }
+      };
+      std::optional<result_t> res;
+      bool ok = false;
+      std::vector<long> inner;
+      {
+        Restore restore{*this, outer_invoked, outer_args};
+        ok = guarded("call/nested", [&] { res = sigs[t]->call(7, arg); });
+        inner = invoked;
+      }
+      std::vector<long> const &m = msig[t];
+      if (ok)
+      {
+        SIM_CHECK(inner == m, "invocation", "nested call of signal " + std::to_string(t) + " invoked " + vstr(inner) + ", live connections in order are " + vstr(m));
+        if (sigs[t]->kind() % 2 == 0)
+        {
+          result_t want = 7;
+          for (long x : m)
+            want = combine(sig_comb[t], want, cb_value(x, arg));
+          SIM_CHECK(res.has_value() && *res == want, "fold-result", "nested call returned " + std::to_string(res.value_or(0)) + ", left fold gives " + std::to_string(want));
+        }
+      }
+      else
+        SIM_CHECK(inner.size() <= m.size() && std::equal(inner.begin(), inner.end(), m.begin()), "invocation", "nested call: after a throwing callback the invoked callbacks " + vstr(inner) + " are not a prefix of " + vstr(m));
+      ctx.probe("reentrant_nested_call");
+      ctx.ev("  (in call) call signal " + std::to_string(t) + " -> " + vstr(inner));
+      return;
+    }
+    return;
+  }
+  }
 }
 
 void World::run_op(sim::Op const &op)
@@ -830,29 +1017,7 @@ void World::run_op(sim::Op const &op)
     int const s = pick_sig("s");
     if (s < 0 || sig_moved_from[s])
       return;
-    for (unsigned c = 0; c < CONNS; ++c)
-      if (!conns[c])
-      {
-        long const cid = counter++;
-        conns[c].emplace();
-        conns[c]->cid = cid;
-        conns[c]->with_unreg = sigs[s]->kind() >= 2;
-        conns[c]->destroy_signal_when_empty = op.get("last_destroys") != 0 && conns[c]->with_unreg;
-        conns[c]->sig = s;
-        bool const ok = guarded(n, [&] { conns[c]->handle.emplace(sigs[s]->connect(*this, cid, conns[c]->with_unreg)); });
-        if (ok)
-          msig[s].push_back(cid);
-        else
-        {
-          // failed connect: the signal is unchanged and no unregister callback may ever run
-          pending_cls.clear(); // (the precise check follows)
-          SIM_CHECK(conns[c]->unreg_runs == 0, "unregister-of-failed-connect", "connect() failed with an injected allocation failure, yet the unregister callback of the connection that never existed ran");
-          conns[c].reset();
-          ctx.probe("connect_failed");
-        }
-        ctx.ev("connect " + std::to_string(cid) + " to signal " + std::to_string(s) + (ok ? "" : " threw"));
-        return;
-      }
+    (void)do_connect(s, op.get("last_destroys") != 0, n);
     return;
   }
   if (n == "disconnect")
@@ -876,18 +1041,58 @@ void World::run_op(sim::Op const &op)
     result_t const initial = static_cast<result_t>(op.getu("init") % 1000);
     invoked.clear();
     args_seen.clear();
+    reentry = Reentry{};
+    reentry.sig = s;
+    if (op.has("re"))
+    {
+      reentry.armed = true;
+      reentry.at = static_cast<unsigned>(op.getu("re") % 4);
+      reentry.kind = static_cast<unsigned>(op.getu("rk"));
+      reentry.target = op.getu("rt");
+    }
+    std::vector<long> const m0 = msig[s];
     std::optional<result_t> res;
     bool const ok = guarded(n, [&] { res = sigs[s]->call(initial, arg); });
-    std::vector<long> const &m = msig[s];
+    reentry.armed = false;
+    raise_pending();
+    // what the call had to reach: the connections at its start plus those added meanwhile, in
+    // order. A connection destroyed or added from inside the call may or may not be invoked (the
+    // property does not say); every other one is invoked exactly once, in order.
+    std::vector<long> m = m0;
+    m.insert(m.end(), reentry.added.begin(), reentry.added.end());
+    auto const optional_member = [&](long cid) {
+      return std::find(reentry.destroyed.begin(), reentry.destroyed.end(), cid) != reentry.destroyed.end() ||
+             std::find(reentry.added.begin(), reentry.added.end(), cid) != reentry.added.end();
+    };
+    auto const consistent = [&](bool complete) {
+      std::size_t pos = 0; // next position of m to be matched
+      for (long cid : invoked)
+      {
+        while (pos < m.size() && m[pos] != cid)
+        {
+          if (!optional_member(m[pos]))
+            return false; // a live connection was skipped
+          ++pos;
+        }
+        if (pos == m.size())
+          return false; // not a member, out of order, or invoked twice
+        ++pos;
+      }
+      if (complete)
+        for (; pos < m.size(); ++pos)
+          if (!optional_member(m[pos]))
+            return false;
+      return true;
+    };
     for (unsigned a : args_seen)
       SIM_CHECK(a == arg, "callback-argument", "a callback of signal " + std::to_string(s) + " received " + std::to_string(a) + " instead of the argument " + std::to_string(arg) + " the signal was called with (by-value arguments must reach every callback intact)");
     if (ok)
     {
-      SIM_CHECK(invoked == m, "invocation", "call of signal " + std::to_string(s) + " invoked " + vstr(invoked) + ", live connections in order are " + vstr(m));
+      SIM_CHECK(consistent(true), "invocation", "call of signal " + std::to_string(s) + " invoked " + vstr(invoked) + ", live connections in order are " + vstr(m) + (reentry.destroyed.empty() ? "" : ", destroyed during the call " + vstr(reentry.destroyed)) + (reentry.added.empty() ? "" : ", added during the call " + vstr(reentry.added)));
       if (sigs[s]->kind() % 2 == 0)
       {
         result_t want = initial;
-        for (long cid : m)
+        for (long cid : invoked)
           want = combine(sig_comb[s], want, cb_value(cid, arg));
         SIM_CHECK(res.has_value() && *res == want, "fold-result", "signal returned " + std::to_string(res.value_or(0)) + ", left fold from the initial value gives " + std::to_string(want));
       }
@@ -897,7 +1102,7 @@ void World::run_op(sim::Op const &op)
       // a callback threw: exactly a prefix of the members was invoked, the thrower last
       // (or copying the by-value argument for a callback hit an injected allocation failure)
       SIM_CHECK(sim::fault::fired(sim::fault::cb) || sim::fault::fired(sim::fault::alloc), "undocumented-exception", n);
-      SIM_CHECK(invoked.size() <= m.size() && std::equal(invoked.begin(), invoked.end(), m.begin()), "invocation", "after a throwing callback the invoked callbacks " + vstr(invoked) + " are not a prefix of " + vstr(m));
+      SIM_CHECK(consistent(false), "invocation", "after a throwing callback the invoked callbacks " + vstr(invoked) + " are not a prefix of " + vstr(m));
       ctx.probe("callback_threw");
     }
     ctx.ev("call signal " + std::to_string(s) + " -> " + vstr(invoked) + (res ? " r=" + std::to_string(*res) : "") + (ok ? "" : " threw"));
@@ -993,6 +1198,7 @@ void generate(sim::Rng &rng, sim::Plan &p, bool)
     p.cfg.set("faulty", 1);
   p.cfg.set("teardown_rev", static_cast<long>(rng.below(2)));
   unsigned const mode = static_cast<unsigned>(rng.below(3)); // 0 intrusive, 1 signals, 2 both
+  bool const reentrant = rng.chance(1, 2); // callbacks that connect, disconnect or call from inside a call
   static char const *const iops[] = {"list_new", "list_destroy", "list_move_ctor", "list_move_assign", "elem_new", "elem_destroy", "elem_unlink", "elem_move_ctor", "elem_move_assign"};
   static char const *const sops[] = {"sig_new", "sig_destroy", "sig_move_ctor", "sig_move_assign", "connect", "disconnect", "call"};
   std::vector<std::string> bag;
@@ -1052,7 +1258,11 @@ void generate(sim::Rng &rng, sim::Plan &p, bool)
     if (n == "disconnect")
       op.set("c", static_cast<long>(rng.below(16)));
     if (n == "call")
+    {
       op.set("arg", static_cast<long>(rng.below(100))).set("init", static_cast<long>(rng.below(1000)));
+      if (reentrant && rng.chance(1, 2))
+        op.set("re", static_cast<long>(rng.below(3))).set("rk", static_cast<long>(rng.below(5))).set("rt", static_cast<long>(rng.below(24)));
+    }
     if (fault_pct != 0 && rng.below(100) < fault_pct)
     {
       if (n == "call")
